@@ -23,13 +23,14 @@ CONSTANT TraceFile
 Trace == ndJsonDeserialize(TraceFile)
 
 VARIABLES l,       \* next trace line
-          lost     \* the consumer of this stream is no longer followed (a batch outside the domain was consumed)
-tvars == <<vars, l, lost>>
+          lost,    \* the consumer of this stream is no longer followed (a batch outside the domain was consumed)
+          kh       \* <<signal, payload type>> -> the schema keys that record builder has used, in order (without repetitions)
+tvars == <<vars, l, lost, kh>>
 
 Ev == Trace[l]
 IsEv(e) == l <= Len(Trace) /\ Trace[l].ev = e
 
-TInit == Init /\ l = 1 /\ lost = FALSE
+TInit == Init /\ l = 1 /\ lost = FALSE /\ kh = <<>>
 
 \* a new stream: fresh producer and consumer
 TBegin ==
@@ -37,7 +38,7 @@ TBegin ==
   /\ pstreams' = {} /\ nextId' = 0 /\ batchId' = 0 /\ wire' = <<>> /\ orig' = <<>> /\ bsig' = Ev.sig /\ phase' = "idle"
   /\ cstreams' = {} /\ pos' = 1 /\ got' = <<>> /\ res' = "none" /\ nfaults' = 0 /\ altered' = FALSE /\ gapped' = {}
   /\ judged' = TRUE /\ ann' = <<>> /\ retiredIds' = {}
-  /\ l' = l + 1 /\ lost' = FALSE
+  /\ l' = l + 1 /\ lost' = FALSE /\ kh' = <<>>
 
 \* the key of the stream producer that wrote payload i: the entry of the logged projection with its schema id
 KeyOf(id) == LET hit == {k \in 1..Len(Ev.ps) : Ev.ps[k][2] = id} IN IF hit = {} THEN "?" ELSE Ev.ps[CHOOSE k \in hit : TRUE][1]
@@ -62,6 +63,14 @@ TEncodeOk ==
         /\ pstreams' = st.streams /\ nextId' = st.next /\ ann' = st.ann /\ retiredIds' = st.ret
         /\ wire' = st.out /\ orig' = st.out /\ gapped' = g
         /\ judged' = (Ids(st.out) \cap g = {})
+        \* schema evolution is additive: the record builder of a signal never returns to a schema key it has left
+        \* (this is what MC_Stream assumes when it lets the levels only grow)
+        /\ LET builders == {<<Ev.sig, recs[i][1]>> : i \in 1..Len(recs)}
+               KeyNow(b) == recs[CHOOSE i \in 1..Len(recs) : recs[i][1] = b[2]][2]
+               Old(b) == IF b \in DOMAIN kh THEN kh[b] ELSE <<>>
+               Step(b) == IF Old(b) # <<>> /\ Old(b)[Len(Old(b))] = KeyNow(b) THEN Old(b) ELSE Append(Old(b), KeyNow(b))
+           IN /\ \A b \in builders : Old(b) # <<>> /\ Old(b)[Len(Old(b))] # KeyNow(b) => \A j \in 1..Len(Old(b)) : Old(b)[j] # KeyNow(b)
+              /\ kh' = [b \in DOMAIN kh \cup builders |-> IF b \in builders THEN Step(b) ELSE kh[b]]
   /\ batchId' = batchId + 1 /\ bsig' = Ev.sig /\ phase' = "flight" /\ pos' = 1 /\ got' = <<>> /\ res' = "none"
   /\ UNCHANGED <<cstreams, nfaults, altered, lost>>
   /\ l' = l + 1
@@ -71,7 +80,7 @@ TEncodeErr ==
   /\ IsEv("Encode") /\ Ev.oc # "ok" /\ phase \in {"idle", "flight"}
   /\ Ev.oc = "error" => {<<x.key, x.id, x.pt>> : x \in pstreams} = {<<Ev.ps[k][1], Ev.ps[k][2], Ev.ps[k][3]>> : k \in 1..Len(Ev.ps)}
   /\ gapped' = gapped \cup Discard /\ phase' = "idle" /\ res' = "none"
-  /\ UNCHANGED <<pstreams, nextId, batchId, wire, orig, bsig, cstreams, pos, got, nfaults, altered, judged, ann, retiredIds, lost>>
+  /\ UNCHANGED <<pstreams, nextId, batchId, wire, orig, bsig, cstreams, pos, got, nfaults, altered, judged, ann, retiredIds, lost, kh>>
   /\ l' = l + 1
 
 \* the batch as handed to the consumer: the logged payload list, each entry the producer's payload `orig`
@@ -84,9 +93,9 @@ Handed == [i \in 1..Len(Ev.fp) |->
 TDeliver ==
   /\ IsEv("Decode") /\ phase = "flight" /\ ~lost
   /\ wire' = Handed /\ altered' = (altered \/ Handed # orig) /\ phase' = "consume"
-  /\ UNCHANGED <<pstreams, nextId, batchId, orig, bsig, cstreams, pos, got, res, nfaults, gapped, judged, ann, retiredIds, l, lost>>
+  /\ UNCHANGED <<pstreams, nextId, batchId, orig, bsig, cstreams, pos, got, res, nfaults, gapped, judged, ann, retiredIds, l, lost, kh>>
 
-TSilent == ~lost /\ (ConsumeStep \/ Finish) /\ UNCHANGED <<l, lost>>
+TSilent == ~lost /\ (ConsumeStep \/ Finish) /\ UNCHANGED <<l, lost, kh>>
 
 \* Ev.n: the number of telemetry items the consumer returned (0 for a main record without rows)
 Matches == IF Ev.oc = "ok"
@@ -105,13 +114,13 @@ TResult ==
           /\ lost' = (Ev.oc = "panic")
      ELSE lost' = TRUE
   /\ res' = "none" /\ l' = l + 1
-  /\ UNCHANGED <<pstreams, nextId, batchId, wire, orig, bsig, phase, cstreams, pos, got, nfaults, altered, gapped, judged, ann, retiredIds>>
+  /\ UNCHANGED <<pstreams, nextId, batchId, wire, orig, bsig, phase, cstreams, pos, got, nfaults, altered, gapped, judged, ann, retiredIds, kh>>
 
 \* once lost, the consumer's events are only counted
 TSkip ==
   /\ IsEv("Decode") /\ lost
   /\ phase' = "idle" /\ res' = "none" /\ l' = l + 1
-  /\ UNCHANGED <<pstreams, nextId, batchId, wire, orig, bsig, cstreams, pos, got, nfaults, altered, gapped, judged, ann, retiredIds, lost>>
+  /\ UNCHANGED <<pstreams, nextId, batchId, wire, orig, bsig, cstreams, pos, got, nfaults, altered, gapped, judged, ann, retiredIds, lost, kh>>
 
 TNext == TBegin \/ TEncodeOk \/ TEncodeErr \/ TDeliver \/ TSilent \/ TResult \/ TSkip
 TSpec == TInit /\ [][TNext]_tvars
